@@ -91,21 +91,19 @@ def refs (l : List Dds.Imports.Ref) : Json := .arr (l.map (fun r => Json.str (re
 
 end Imp
 
-/-- {"op":"imports","params":[…],"body":stmt,"accepted":[root packages],"roots":[first components of the imported paths]} -/
+/-- {"op":"imports","params":[…],"body":stmt,"accepted":[root packages]} -/
 def opImports (j : Json) : R Json := do
   let ps ← asStrList (← fld j "params")
   let b ← Imp.decStmt (← fld j "body")
   let accepted ← asStrList (← fld j "accepted")
-  let roots ← asStrList (← fld j "roots")
   let acc : Dds.Imports.Path → Bool := fun p => match p with | [] => false | h :: _ => accepted.contains h
-  let isRoot : String → Bool := fun x => roots.contains x
-  let hyp := Dds.Imports.stmtOK acc isRoot b && Dds.Imports.varsOK isRoot (ps ++ Dds.Imports.boundS b)
-    && Dds.Imports.impsOK acc isRoot (Dds.Imports.impsS b)
+  let hyp := Dds.Imports.stmtOK acc b && Dds.Imports.impsOK acc (Dds.Imports.impsS b)
   pure (Json.mkObj [
     ("analysis", match Dds.Imports.analyse acc ps b with | none => Json.null | some l => Imp.refs l),
     ("python", Imp.refs (Dds.Imports.pyRefs ps b)),
     ("hypotheses", .bool hyp),
     ("unresolved", Imp.refs (Dds.Imports.unresolvedRefs ps b)),
-    ("text_order", Imp.refs (Dds.Imports.textRefs acc ps b))])
+    ("text_order", Imp.refs (Dds.Imports.textRefs acc ps b)),
+    ("chain", Imp.refs (Dds.Imports.chainRefs acc ps b))])
 
 end Drv
